@@ -54,6 +54,85 @@ Qed.
 Definition eff_prec3 (z x y u : Dec) : Z :=
   if prec z =? 0 then umax32 (umax32 (prec x) (prec y)) (prec u) else prec z.
 
+(* the exact product at a precision that holds all its digits: lx+ly words, exponent
+   exp x + exp y minus the normalisation shift *)
+Lemma umul_shape z x y zP :
+  WFfin x -> WFfin y -> mdigits (mant x) + mdigits (mant y) < 4294967296 - 18 ->
+  mdigits (mant x) + mdigits (mant y) <= prec z ->
+  umul z x y = Some zP -> dform zP = Ffinite ->
+  mdigits (mant zP) = mdigits (mant x) + mdigits (mant y) /\
+  exp x + exp y - 18 <= exp zP <= exp x + exp y.
+Proof.
+  intros Hx Hy Hlen Hp.
+  pose proof (WFfin_val_bounds x Hx) as HNx. pose proof (WFfin_val_bounds y Hy) as HNy.
+  destruct (WFfin_len x Hx) as [Hlx HLx]. destruct (WFfin_len y Hy) as [Hly HLy].
+  unfold umul.
+  set (Nx := val (mant x)) in *. set (Ny := val (mant y)) in *.
+  set (Lx := mdigits (mant x)) in *. set (Ly := mdigits (mant y)) in *.
+  assert (HNx0 : 0 < Nx) by (assert (0 < 10 ^ (Lx - 1)) by (apply pow10_pos; lia); lia).
+  assert (HNy0 : 0 < Ny) by (assert (0 < 10 ^ (Ly - 1)) by (apply pow10_pos; lia); lia).
+  unfold dec_mul. fold Nx Ny.
+  destruct (of_Z_pos_facts (Nx * Ny) ltac:(nia)) as (Hok & Hne & Hlast & Hval).
+  assert (Hzl : zlen (of_Z (Nx * Ny)) = zlen (mant x) + zlen (mant y)).
+  { apply zlen_of_Z; [lia|].
+    rewrite <- !pow10_19 by lia.
+    assert (0 < 10 ^ (Lx - 1)) by (apply pow10_pos; lia). assert (0 < 10 ^ (Ly - 1)) by (apply pow10_pos; lia).
+    split.
+    - apply Z.le_trans with (10 ^ (Lx - 1) * 10 ^ (Ly - 1)); [|nia].
+      rewrite <- Z.pow_add_r by lia. apply Z.pow_le_mono_r; lia.
+    - replace (19 * (zlen (mant x) + zlen (mant y))) with (Lx + Ly) by lia.
+      rewrite Z.pow_add_r by lia. nia. }
+  destruct (dnorm_spec _ Hok Hne Hlast) as (m' & sh & Ed & Hsh & Vm' & Lm' & Okm' & Nem' & Topm').
+  rewrite Ed.
+  assert (Hmd : mdigits m' = Lx + Ly) by (unfold mdigits; rewrite Lm', Hzl; cbv [DW]; lia).
+  clear Hok Hne Hlast Hval Vm' Ed HNx HNy HNx0 HNy0.
+  unfold setExpAndRound.
+  destruct (Z.ltb_spec (exp x + exp y - sh) MinExp); [intros E; injection E as <-; cbn [dform with_form]; discriminate|].
+  destruct (Z.ltb_spec MaxExp (exp x + exp y - sh)); [intros E; injection E as <-; cbn [dform with_form]; discriminate|].
+  unfold round. cbn [dform with_acc with_exp with_form with_mant mant prec].
+  assert (E1 : u32 (zlen m') = zlen m').
+  { unfold u32. apply Z.mod_small. unfold mdigits in Hmd. cbv [DW] in Hmd. pose proof (zlen_nonneg m'). lia. }
+  assert (E2 : u32 (zlen m' * DW) = Lx + Ly).
+  { unfold u32. rewrite Z.mod_small; [unfold mdigits in Hmd; lia|]. unfold mdigits in Hmd. cbv [DW] in *. pose proof (zlen_nonneg m'). lia. }
+  rewrite E1, E2.
+  destruct (Z.leb_spec (Lx + Ly) (prec z)); [|lia].
+  intros E _. injection E as <-. cbn [mant exp with_acc with_exp with_form with_mant].
+  split; [exact Hmd|]. rewrite i32_small by lia. lia.
+Qed.
+
+Definition fma_span (x y u : Dec) : Z :=
+  Z.max (mdigits (mant x) + mdigits (mant y)) (mdigits (mant u)) +
+  Z.abs ((exp x + exp y - (mdigits (mant x) + mdigits (mant y))) - (exp u - mdigits (mant u))).
+
+
+(* a concrete sufficient condition for the two range hypotheses of FMA_correct *)
+Lemma scaled1_mono a b : a <= b -> (scaled 1 a <= scaled 1 b)%Q.
+Proof.
+  intros H. apply (scaled_le_gen 1 a 1 b a); try lia. rewrite Z.sub_diag, Z.pow_0_r.
+  assert (0 < 10 ^ (b - a)) by (apply pow10_pos; lia). lia.
+Qed.
+
+Lemma FMA_range_sufficient x y : WF x -> WF y -> dform x = Ffinite -> dform y = Ffinite ->
+  MinExp + 1 <= exp x + exp y <= MaxExp ->
+  (scaled 1 (MinExp - 1) <= mag x * mag y)%Q /\ (mag x * mag y < scaled 1 MaxExp)%Q.
+Proof.
+  intros Wx Wy Fx Fy He. pose proof (WF_finite x Wx Fx) as Hx. pose proof (WF_finite y Wy Fy) as Hy.
+  destruct (mag_bounds x Hx) as [Lx Ux]. destruct (mag_bounds y Hy) as [Ly Uy].
+  assert (P1 : (0 < scaled 1 (exp x - 1))%Q) by (apply scaled_pos; lia).
+  assert (P2 : (0 < scaled 1 (exp y - 1))%Q) by (apply scaled_pos; lia).
+  assert (P3 : (0 < mag x)%Q) by (apply Qlt_le_trans with (scaled 1 (exp x - 1)); assumption).
+  assert (P4 : (0 < scaled 1 (exp y))%Q) by (apply scaled_pos; lia).
+  split.
+  - apply Qle_trans with (scaled 1 (exp x - 1) * scaled 1 (exp y - 1))%Q.
+    + rewrite scaled_mul, Z.mul_1_l. apply scaled1_mono. lia.
+    + apply Qmult_le_compat_nonneg; split; try assumption; apply Qlt_le_weak; assumption.
+  - apply Qlt_le_trans with (scaled 1 (exp x) * scaled 1 (exp y))%Q.
+    + apply Qle_lt_trans with (mag x * scaled 1 (exp y))%Q.
+      * apply Qmult_le_l; [exact P3|apply Qlt_le_weak; exact Uy].
+      * apply Qmult_lt_r; [exact P4|exact Ux].
+    + rewrite scaled_mul, Z.mul_1_l. apply scaled1_mono. lia.
+Qed.
+
 (* FMA on finite operands with u <> 0, when the exact product's magnitude lies
    in the finite range (otherwise: known finding K3) *)
 Theorem FMA_correct zu z x y u :
@@ -61,7 +140,7 @@ Theorem FMA_correct zu z x y u :
   0 <= prec z <= MaxPrec -> (zu = true -> z = u) ->
   mdigits (mant x) + mdigits (mant y) < 4294967296 - 18 ->
   (scaled 1 (MinExp - 1) <= mag x * mag y)%Q -> (mag x * mag y < scaled 1 MaxExp)%Q ->
-  (forall p', WF p' -> dform p' = Ffinite -> (mag p' == mag x * mag y)%Q -> add_span p' u + 40 < 4294967296 - 18) ->
+  fma_span x y u + 58 < 4294967296 - 18 ->
   AddPost (eff_prec3 z x y u) (dmode z)
           ((if xorb (neg x) (neg y) then - (mag x * mag y) else mag x * mag y) + sval u)
           (FMA zu z x y u).
@@ -112,7 +191,9 @@ Proof.
   { destruct zu; [rewrite Hp1|unfold zPp; cbn [prec with_prec]; rewrite Hp0]; lia. }
   change (Add (negb zu) zu (if zu then z1 else zPp) zPp u) with (Add (negb zu) zu (if zu then z1 else zPp) (with_prec zP (prec z0)) u).
   rewrite (Add_prec_x_irrelevant (negb zu) zu (if zu then z1 else zPp) zP u (prec z0) Hrecv FP Fu).
-  assert (Hsp : add_span zP u + 40 < 4294967296 - 18) by (apply Hspan; assumption).
+  assert (Hsp : add_span zP u + 40 < 4294967296 - 18).
+  { destruct (umul_shape zM x y zP Hx Hy Hlen ltac:(cbn [prec zM with_prec]; unfold MaxPrec; lia) EU FP) as [Hmd Hex].
+    unfold add_span. rewrite Hmd. unfold fma_span in Hspan. clear - Hspan Hex. lia. }
   assert (Precv : 0 <= prec (if zu then z1 else zPp) <= MaxPrec).
   { destruct zu; [rewrite Hp1|unfold zPp; cbn [prec with_prec]; rewrite Hp0]; lia. }
   pose proof (Add_correct (negb zu) zu (if zu then z1 else zPp) zP u WP Wu FP Fu Precv Hsp) as HA.
